@@ -195,3 +195,23 @@ func Ask(s *server.Server, q *dns.Msg, proto, ip string) *dns.Msg {
 	}
 	return m
 }
+
+// AskRaw enters through Server.ServeRaw on a strict-slot transport double, so the
+// request is wire-born (ParseWire admission, byte paths, detached context) when the
+// packet qualifies. Returns the last reply written, decoded.
+func AskRaw(s *server.Server, q *dns.Msg, proto, ip string) *dns.Msg {
+	raw, err := q.Pack()
+	if err != nil {
+		return nil
+	}
+	job := &server.VerifStrictJob{Remote: Addr(proto, ip, 40000)}
+	s.ServeRaw(job, raw, time.Now())
+	if len(job.Writes) == 0 {
+		return nil
+	}
+	m := new(dns.Msg)
+	if err := m.Unpack(job.Writes[len(job.Writes)-1]); err != nil {
+		return nil
+	}
+	return m
+}
